@@ -4,7 +4,8 @@ import json, os
 rows = []
 for d in sorted(os.listdir('/verif/seeded')):
     m = json.load(open(f'/verif/seeded/{d}/meta.json'))
-    run = m['runs'][-1] if m['runs'] else None
+    full = [r for r in m['runs'] if len(r['fired']) + len(r['inconclusive']) + len(r['silent']) == 20]
+    run = full[-1] if full else None
     first = m['needs_to_manifest'].strip().splitlines()
     title = next((l.strip('# *').strip() for l in first if l.strip()), '')
     if run:
